@@ -96,3 +96,109 @@ pub fn duplicate_checks(ctx: &Ctx, tier: Tier) -> (u64, u64) {
     ctx.count("duplicate_independence_transitions", transitions);
     (states, transitions)
 }
+
+/// Cross-version deep copy of full-coverage documents: for every source version (quick: 4, thorough: all 21) the
+/// specification-derived document that contains every (type, sub-element) edge and attribute of that version is
+/// loaded, and each of its top-level packages is copied into an empty model of every one of the 21 versions.
+/// Oracles per (source, target): the copy equals the specification-filtered source (`spec_filter`, the harness's own
+/// reading of "omits exactly the parts not permitted there"), the source is unchanged, the destination satisfies the
+/// harness's validator and the model invariants (paths and references findable), and its text loads strictly.
+pub fn cross_version_copy(ctx: &Ctx, tier: Tier) -> (u64, u64) {
+    use crate::common::docgen::DocGen;
+    use crate::common::invariants::{all_invariants, Scope};
+    use crate::common::specgraph::VERSIONS;
+    use crate::common::specvalid::{spec_filter, validate_tree};
+    use crate::common::tree::*;
+    use autosar_data::*;
+    let sources: Vec<AutosarVersion> = VERSIONS.iter().enumerate().filter(|(i, _)| tier == Tier::Thorough || i % 6 == 0 || *i == VERSIONS.len() - 1).map(|(_, v)| *v).collect();
+    let pairs: Vec<(AutosarVersion, AutosarVersion)> = sources.iter().flat_map(|s| VERSIONS.iter().map(move |t| (*s, *t))).collect();
+    let n_pairs = pairs.len() as u64;
+    let copies: u64 = pairs
+        .par_iter()
+        .map(|(vs, vt)| {
+            let mut g = DocGen::new(*vs, false);
+            let doc = g.document();
+            let text = print_document(&doc, *vs, &PrintOpts::default());
+            let w = |extra: serde_json::Value| json!({"kind": "cross-version-copy", "source_version": format!("{vs:?}"), "target_version": format!("{vt:?}"), "generator": "full-document (plain values)", "detail": extra});
+            let Ok(Ok(src)) = super::c01::load(text.as_bytes(), true) else {
+                ctx.machinery_error(format!("cross-version copy: the generated document of {vs:?} does not load"));
+                return 0;
+            };
+            let src_before = snapshot_model(&src.model);
+            let dst = AutosarModel::new();
+            let Ok(_) = dst.create_file("dst.arxml", *vt) else { return 0 };
+            let Ok(Ok(dst_pkgs)) = guarded(|| dst.root_element().create_sub_element(ElementName::ArPackages)) else {
+                ctx.machinery_error("cross-version copy: cannot create AR-PACKAGES");
+                return 0;
+            };
+            let Some(src_pkgs) = src.model.root_element().get_sub_element(ElementName::ArPackages) else { return 0 };
+            let mut n = 0u64;
+            let mut expected_root = Node::new("AUTOSAR");
+            let mut expected_pkgs = Node::new("AR-PACKAGES");
+            for pkg in src_pkgs.sub_elements() {
+                n += 1;
+                let pkg_snap = snapshot(&pkg);
+                // the type the element has at the destination in the destination's version (it can differ from the source's)
+                let Some((dst_type, _)) = dst_pkgs.element_type().find_sub_element(pkg.element_name(), *vt as u32) else { continue };
+                let expected = spec_filter(&pkg_snap, dst_type, *vt);
+                match guarded(|| dst_pkgs.create_copied_sub_element(&pkg)) {
+                    Err(msg) => {
+                        ctx.violation(format!("cross-version-copy|panic|{}", last_panic_loc()), w(json!({"msg": msg, "package": pkg.item_name()})));
+                    }
+                    Ok(Err(e)) => {
+                        if expected.is_some() {
+                            ctx.violation(format!("cross-version-copy|fails|{}", super::c01::err_class(&e)), w(json!({"error": e.to_string(), "package": pkg.item_name()})));
+                        }
+                    }
+                    Ok(Ok(copy)) => match expected {
+                        None => ctx.violation("cross-version-copy|copied-although-a-required-part-is-not-permitted", w(json!({"package": pkg.item_name()}))),
+                        Some(exp) => {
+                            let got = snapshot(&copy);
+                            if let Some(d) = got.diff(&exp, "") {
+                                ctx.violation(format!("cross-version-copy|differs-from-filtered-source|{}", super::c01::diff_class(&d)), w(json!({"diff": d, "package": pkg.item_name()})));
+                            }
+                            expected_pkgs.items.push(Item::Node(exp));
+                        }
+                    },
+                }
+            }
+            expected_root.items.push(Item::Node(expected_pkgs));
+            if snapshot_model(&src.model) != src_before {
+                ctx.violation("cross-version-copy|source-changed", w(json!({})));
+            }
+            for p in all_invariants(&src.model, &Scope::default()) {
+                ctx.violation(format!("cross-version-copy|source-invariant|{}|{}", p.prop, p.key), w(json!({"detail": p.detail})));
+            }
+            for p in all_invariants(&dst, &Scope::default()) {
+                ctx.violation(format!("cross-version-copy|destination-invariant|{}|{}", p.prop, p.key), w(json!({"detail": p.detail})));
+            }
+            let got_root = snapshot_model(&dst);
+            let mut kinds: Vec<&'static str> = validate_tree(&got_root, *vt).iter().map(|x| x.kind).collect();
+            kinds.sort();
+            kinds.dedup();
+            for k in kinds {
+                let at = validate_tree(&got_root, *vt).into_iter().find(|x| x.kind == k).map(|x| x.at).unwrap_or_default();
+                ctx.violation(format!("cross-version-copy|copy-does-not-validate|{k}"), w(json!({"at": at})));
+            }
+            // the destination's own text loads strictly in the target version and gives the same tree
+            if let Some(f) = dst.files().next() {
+                match guarded(|| f.serialize()) {
+                    Ok(Ok(t)) => match super::c01::load_classified(t.as_bytes(), true) {
+                        Ok(Ok(l)) => {
+                            if let Some(d) = snapshot_model(&l.model).diff(&got_root, "") {
+                                ctx.violation(format!("cross-version-copy|reload-differs|{}", super::c01::diff_class(&d)), w(json!({"diff": d})));
+                            }
+                        }
+                        Ok(Err(e)) => ctx.violation(format!("cross-version-copy|copy-does-not-load-strictly|{}", e.class), w(json!({"error": e.text}))),
+                        Err(msg) => ctx.violation(format!("cross-version-copy|panic-on-reload|{}", last_panic_loc()), w(json!({"msg": msg}))),
+                    },
+                    _ => ctx.violation("cross-version-copy|serialize-fails", w(json!({}))),
+                }
+            }
+            n
+        })
+        .sum();
+    ctx.count("cross_version_copy_version_pairs", n_pairs);
+    ctx.count("cross_version_copy_packages_copied", copies);
+    (n_pairs, copies)
+}
